@@ -220,7 +220,7 @@ TEXT = {
                 "append-only, old tip stays an ancestor (no hypothesis at all); C03_failed_unchanged; C03_annotate_refused / C03_annotate_accepted — an annotation is "
                 "written iff every id it names is a well-formed entry of the store; C03_skipAll_shape / C03_skipAll_inv — SkipAllInvalidReferenceEntriesForRef writes nothing or exactly one skip annotation through the same path; "
                 "C03_step_annBackward — recorded annotations name only older, stored entries (the hypothesis of the C04 theorems); C03_run_inv — lifted by induction to every prefix of every operation sequence "
-                "(C03_numbered_admissible: any sequence of numbered operations whose annotations name at least one entry); C03_F25 — the unrestricted statement is false: "
+                "(C03_numbered_admissible: any sequence of numbered operations whose annotations name at least one entry); C03_run_extends / C03_run_prefix_extends — append-only for every operation sequence whatsoever from every store, no admissibility needed: each intermediate state is extended by every later one; C03_F25 — the unrestricted statement is false: "
                 "an annotation naming no entry is accepted and leaves an unparsable tip. Real op sequences through pkg/rsl are compared commit by commit with the model "
                 "after every operation using an independent git cat-file reader, and ChainInv / Extends / exactness are evaluated on the implementation's chain.",
         "note": TB + "Open finding F25 (annotation without ids bricks the log) is reproduced by the model and flagged KNOWN-FINDING. SkipAllInvalidReferenceEntriesForRef is modelled and driven directly; policy State.Commit / policy.Apply / "
